@@ -272,7 +272,7 @@ PROPS["C04"] = {
     "trusted_base": ['reference verdict computed by gen_catalogue.py from the layout'],
     "harnesses": [H("c04::c04_skipper_storage_shapes", "quick", 900), H("c04::c04_validated_payload_length_all", "quick", 300),
                   H("c06::c06_junk_3_filtered_out", "quick", 900, what="junk in front of the storage header + a filter that drops the message: remainder still at the declared end"),
-                  H("c19::c19_ids_extended_header", "quick", 600, what="header parsers consume exactly their field sizes for ANY id bytes (the message end is computed from where the header parsers stop)"),
+                  H("c19::c19_ids_extended_header", "thorough", 600, what="header parsers consume exactly their field sizes for ANY id bytes (the message end is computed from where the header parsers stop)"),
                   H("c19::c19_ids_standard_header_ecu", "quick", 600, what="same, ECU id of the standard header")]
                  + [H(e["name"], e["tier"], 900) for e in _cat["c04"]],
 }
